@@ -682,7 +682,8 @@ def merge(res, obs, cov, replay, site):
     for t in ('rustc nightly MIR pretty-printer', 'vlib/mir.py symbolic MIR interpreter', 'z3'):
         if t not in cov['trusted_base']:
             cov['trusted_base'].append(t)
-    cov['checker_cmd'] = cov.get('checker_cmd', '') + ' ; cargo +nightly rustc -- -Zunpretty=mir + vlib/mir.py + z3'
+    if 'Zunpretty=mir' not in cov.get('checker_cmd', ''):
+        cov['checker_cmd'] = (cov.get('checker_cmd', '') + ' ; ' if cov.get('checker_cmd') else '') + 'cargo +nightly rustc -- -Zunpretty=mir + vlib/mir.py + z3'
 
 
 def load():
@@ -953,7 +954,7 @@ def struct_fields(rel_path, struct_name):
     """field order of a struct, read from its declaration in the current tree (the MIR names fields by index only)"""
     import os
     text = open(os.path.join(C.REPO, rel_path)).read()
-    m = re.search(r'struct ' + struct_name + r'\s*\{(.*?)\n\}', text, re.S)
+    m = re.search(r'struct ' + struct_name + r'(?:<[^>{]*>)?\s*\{(.*?)\n\}', text, re.S)
     if not m:
         raise M.MirError('struct ' + struct_name + ' not found')
     return re.findall(r'^\s*(?:pub(?:\([^)]*\))? )?(\w+)\s*:', m.group(1), re.M)
